@@ -5,7 +5,8 @@ dicts as insertion-ordered association lists, `d[k] = v` replacing in place or a
 Here random sequences of calls (build, insert, remove + update, _reset, invalidate) are run on the REAL `tinyflux.index.Index` object, and the same
 sequence on the compiled functions inside Coq (vm_compute); after every call the seven attributes are compared - the nested tag map with the order
 of its keys, the postings, the time arrays (float stamps turned back into microseconds), the counters - and the answers of the compiled getters
-(__len__, valid, get_measurements, get_timestamps, get_field_values for several measurement arguments) with those of the real ones.  Only run when the translation was not
+(__len__, valid, get_measurements, get_field_keys, get_tag_keys, get_timestamps, get_field_values, get_tag_values for several arguments; sets compared
+after sorting) with those of the real ones.  Only run when the translation was not
 refused (a refused translation is a snapshot of an older source).  This compares INTERNAL state on purpose: it is a test of the translator, not of
 the property; a difference is reported as a broken correspondence without a failing input."""
 import random
@@ -41,16 +42,25 @@ Definition istep (g : pyindex) (o : iop) : pyindex :=
 (* what the compiled getters answer on the compiled object, for the measurement arguments None, "m1", "m2", "" and the field keys "a", "v" *)
 Definition m1 : str := [109; 49]%N.
 Definition m2 : str := [109; 50]%N.
-Definition answers (g : pyindex) : nat * bool * list str * list (list Z) * list (list (option num)) :=
-  (IndexGen.gen___len__ g, IndexGen.gen_valid g, sort_dedup (IndexGen.gen_get_measurements g),
+Definition ka : str := [97]%N.
+Definition kb : str := [98]%N.
+Definition kz : str := [122; 122]%N.
+Definition canon_tv (d : list (str * list (option str))) : list (str * list (option str)) :=
+  map (fun k => (k, sort_none_last (d_get [] k d))) (sort_dedup (map fst d)).
+Definition answers (g : pyindex) : nat * bool * list (list str) * list (list Z) * list (list (option num)) * list (list (str * list (option str))) :=
+  (IndexGen.gen___len__ g, IndexGen.gen_valid g,
+   sort_dedup (IndexGen.gen_get_measurements g) :: map (fun m => sort_dedup (IndexGen.gen_get_field_keys g m)) [None; Some m1; Some []]
+     ++ map (fun m => sort_dedup (IndexGen.gen_get_tag_keys g m)) [None; Some m1; Some m2],
    map (IndexGen.gen_get_timestamps g) [None; Some m1; Some m2; Some []],
-   flat_map (fun k => map (IndexGen.gen_get_field_values g k) [None; Some m1; Some []]) [[97]%N; [118]%N]).
-Definition answers_eqb (a b : nat * bool * list str * list (list Z) * list (list (option num))) : bool :=
-  let '(n1, v1, ms1, ts1, fv1) := a in let '(n2, v2, ms2, ts2, fv2) := b in
-  Nat.eqb n1 n2 && Bool.eqb v1 v2 && leqb str_eqb ms1 ms2 && leqb (leqb Z.eqb) ts1 ts2 && leqb (leqb onum_eqb) fv1 fv2.
+   flat_map (fun k => map (IndexGen.gen_get_field_values g k) [None; Some m1; Some []]) [[97]%N; [118]%N],
+   map (fun km => canon_tv (IndexGen.gen_get_tag_values g (fst km) (snd km))) [([], None); ([], Some m1); ([ka; kz], None); ([ka; kb; ka], Some m1); ([kz], Some [122]%N)]).
+Definition answers_eqb (a b : nat * bool * list (list str) * list (list Z) * list (list (option num)) * list (list (str * list (option str)))) : bool :=
+  let '(n1, v1, ms1, ts1, fv1, tv1) := a in let '(n2, v2, ms2, ts2, fv2, tv2) := b in
+  Nat.eqb n1 n2 && Bool.eqb v1 v2 && leqb (leqb str_eqb) ms1 ms2 && leqb (leqb Z.eqb) ts1 ts2 && leqb (leqb onum_eqb) fv1 fv2
+  && leqb (leqb (peqb str_eqb (leqb ostr_eqb))) tv1 tv2.
 (* after every call the compiled object must be the observed one, and the compiled getters must answer what the real getters answered;
    the number of the first call where they do not (0 = all agree) *)
-Fixpoint walk (g : pyindex) (k : nat) (l : list (iop * pyindex * (nat * bool * list str * list (list Z) * list (list (option num))))) : nat :=
+Fixpoint walk (g : pyindex) (k : nat) (l : list (iop * pyindex * (nat * bool * list (list str) * list (list Z) * list (list (option num)) * list (list (str * list (option str)))))) : nat :=
   match l with [] => 0 | (o, want, ans) :: r => let g' := istep g o in if pyindex_eqb g' want && answers_eqb (answers g') ans then walk g' (S k) r else S k end.
 Definition start (v : bool) : pyindex := IndexGen.gen___init__ py_blank v.
 """
@@ -75,14 +85,19 @@ def _snapshot(ix):
 
 def _answers(ix):
     us = lambda ts: round(ts * 1000000)
-    return {"len": len(ix), "valid": bool(ix.valid), "meas": sorted(ix.get_measurements()),
+    snl = lambda vals: sorted(vals, key=lambda x: (x is None, x or ""))
+    tv = lambda ks, m: [(k, snl(v)) for k, v in sorted(ix.get_tag_values(ks, m).items())]
+    return {"len": len(ix), "valid": bool(ix.valid),
+            "meas": [sorted(ix.get_measurements())] + [sorted(ix.get_field_keys(m)) for m in (None, "m1", "")] + [sorted(ix.get_tag_keys(m)) for m in (None, "m1", "m2")],
+            "tv": [tv([], None), tv([], "m1"), tv(["a", "zz"], None), tv(["a", "b", "a"], "m1"), tv(["zz"], "z")],
             "ts": [[us(t) for t in ix.get_timestamps(m)] for m in (None, "m1", "m2", "")],
             "fv": [list(ix.get_field_values(k, m)) for k in ("a", "v") for m in (None, "m1", "")]}
 
 
 def _cans(a):
-    return (f"({a['len']}, {M.cbool(a['valid'])}, {M.clist(a['meas'], M.cstr)}, {M.clist(a['ts'], lambda l: M.clist(l, M.cz))}, "
-            f"{M.clist(a['fv'], lambda l: M.clist(l, lambda x: M.copt(x, M.cnum)))})")
+    return (f"({a['len']}, {M.cbool(a['valid'])}, {M.clist(a['meas'], lambda l: M.clist(l, M.cstr))}, {M.clist(a['ts'], lambda l: M.clist(l, M.cz))}, "
+            f"{M.clist(a['fv'], lambda l: M.clist(l, lambda x: M.copt(x, M.cnum)))}, "
+            + M.clist(a['tv'], lambda d: M.clist(d, lambda kv: f"({M.cstr(kv[0])}, {M.clist(kv[1], lambda x: M.copt(x, M.cstr))})")) + ")")
 
 
 def _csnap(s):
